@@ -30,7 +30,7 @@ TRACE = ("FaultTrace.tla", "FaultTrace.cfg")
 # allows, else a prefix of this list (and says so in the stats)
 SCRIPTS = ["params", "refuse", "ue14", "vnadata2", "trl", "calstore", "te10",
            "corr", "lm", "lmw", "e12", "ue10", "t8", "t8p3", "load", "bulk",
-           "u16", "vnadata", "yaml", "t16", "auto16", "ts", "resolve", "resolve2"] + [
+           "u16", "vnadata", "yaml", "t16", "auto16", "ts", "resolve", "resolve2", "params2"] + [
                "solt-%s-%s" % (t, f)
                for t in ("t8", "u8", "te10", "ue10", "ue14", "e12")
                for f in ("m", "ab")]
